@@ -501,6 +501,49 @@ def one_shot_flags(f, loop, head, d, body, with_armed=False):
     return out
 
 
+def check_copy_keeps_body_memo(P, R, rid, decs):
+    """_body replaces environ['wsgi.input'] by the buffer it filled: a copy of the environ that lacks the memo of that buffer reads `wsgi.input` again -
+    the already consumed (or half consumed) buffer, not the server stream"""
+    import re as _re
+    key = None
+    if decs and isinstance(decs[0].args[0], ast.Constant):
+        m_ = _re.match(r'environ\[\s*(.+?)\s*\]', str(decs[0].args[0].value))
+        key = m_.group(1) if m_ else None
+    cp = P.maybe_func('ombott.request_pkg.request:BaseRequest.copy')
+    if key is None or cp is None:
+        return
+    dropped = []
+    for c in walk_shallow(cp.node):
+        if isinstance(c, ast.Call) and call_attr(c) in ('pop', '__delitem__') and c.args:
+            loops = [lp for lp in T.loops_of(c) if isinstance(lp, ast.For) and isinstance(lp.target, ast.Name)]
+            envs = [{}]
+            if loops:
+                try:
+                    vals = T.ceval(cp, loops[0].iter)
+                    envs = [{loops[0].target.id: v} for v in vals]
+                except (T.CannotEval, TypeError):
+                    envs = []
+            for env in envs:
+                try:
+                    if T.ceval(cp, c.args[0], env) == key:
+                        dropped.append(c)
+                except T.CannotEval:
+                    pass
+        elif isinstance(c, ast.Delete):
+            for t in c.targets:
+                if isinstance(t, ast.Subscript) and is_const(t.slice, key):
+                    dropped.append(c)
+        elif isinstance(c, ast.DictComp):
+            for gen in c.generators:
+                for cond in gen.ifs:
+                    if any(isinstance(x, ast.Constant) and isinstance(x.value, str) and x.value and key.startswith(x.value) for x in ast.walk(cond)):
+                        dropped.append(c)
+    R.ob(rid, cp, dropped[0] if dropped else cp.node, not dropped, text=f'request.copy() keeps the memo `{key}` of the buffered body', detail='' if not dropped else
+         f'`{short(dropped[0])}` removes `{key}` from the copied environ while `wsgi.input` in it is the buffer the original filled: the copy reads that buffer again from '
+         f'wherever the application left it - after the handler consumed the body, `request.copy().body` is empty or starts in the middle',
+         why='the body presented to the application is exactly the first Content-Length bytes of the stream', key_extra='copy-body-memo')
+
+
 def check_body_props(P, R):
     c = P.cls(f'{BM}:BodyMixin')
     f = c.methods.get('_body')
@@ -556,13 +599,29 @@ def check_body_props(P, R):
             ok = from_body and bool(seeks) and fb.cfg.must_pass(fb.cfg.entry, rn, seeks)
         R.ob('C04.e', fb, r, ok, detail='' if ok else 'body does not return the cached buffer rewound to 0')
     check_content_length(P, R, 'C04.e')
+    check_copy_keeps_body_memo(P, R, 'C04.e', decs)
 
+    check_nobody_closes_body(P, R, 'C04.e', f, decs)
+
+
+def check_nobody_closes_body(P, R, rid, f, decs):
+    """the cached buffer stays open for the whole request - and beyond the handler, while the response is produced: nobody in the package closes it"""
+    import re as _re
+    key = None
+    if decs and isinstance(decs[0].args[0], ast.Constant):
+        m_ = _re.match(r'environ\[\s*(.+?)\s*\]', str(decs[0].args[0].value))
+        key = m_.group(1) if m_ else None
     # the cached buffer stays open for the whole request: nobody in the package closes it (close() / `with` on it)
     def _is_body_ref(fn, e, at):
         for x in fn.rd.closure_nodes(e, at):
             if isinstance(x, ast.Attribute) and x.attr in ('body', '_body') and isinstance(x.value, ast.Name) and x.value.id in ('self', 'request', 'rq'):
                 return True
             if isinstance(x, ast.Subscript) and is_const(x.slice, 'wsgi.input') and fn.fq != f.fq:
+                return True
+            # the memo itself: environ['ombott.request.body'] / environ.get('ombott.request.body')
+            if key and isinstance(x, ast.Subscript) and is_const(x.slice, key):
+                return True
+            if key and isinstance(x, ast.Call) and call_attr(x) in ('get', 'pop') and x.args and is_const(x.args[0], key):
                 return True
         return False
     closers = []
@@ -587,15 +646,15 @@ def check_body_props(P, R):
                 if ns_ and _is_body_ref(fn, n.func.value, ns_[0]):
                     memonly.append((fn, n))
     for (fn, n, what) in closers:
-        R.ob('C04.e', fn, n, False, text=f'`{what}` closes the cached request body', detail=
+        R.ob(rid, fn, n, False, text=f'`{what}` closes the cached request body', detail=
              f'`{what}` closes the buffered body that is cached in the environ and handed out again by request.body / wsgi.input: after this access every later '
              f'read of the raw body raises ValueError (I/O operation on closed file) instead of giving the first Content-Length bytes',
              why='request.body is the same bytes on every access (re-readable, rewound)', key_extra='closes-body')
     for (fn, n) in memonly:
-        R.ob('C04.e', fn, n, False, text=f'`{short(n)}` on the cached request body', detail=
+        R.ob(rid, fn, n, False, text=f'`{short(n)}` on the cached request body', detail=
              f'`{short(n)}` exists on the in-memory buffer only: the cached body is a temporary file once it has outgrown (or exactly reached) the in-memory threshold, and this '
              f'access then raises AttributeError instead of presenting the body', why='the body is presented whatever its size', key_extra='memory-only-api')
-    R.ob('C04.e', f, f.node, not closers, text='no function closes the cached request body (no close() / with on it)', detail='' if not closers else
+    R.ob(rid, f, f.node, not closers, text='no function closes the cached request body (no close() / with on it)', detail='' if not closers else
          f'{len(closers)} site(s) close it', nontrivial=False, key_extra='no-closer')
 
 
